@@ -78,6 +78,24 @@ impl TargetProc {
             }
             std::thread::sleep(std::time::Duration::from_micros(500));
         }
+        // ... and every parked thread: its report is sent BEFORE it switches to its own stack and blocks in pause(); with many
+        // threads on a busy machine that can take longer than the target's own grace period, and a dump taken earlier would
+        // capture a stack that still changes
+        if let Some(ths) = report["threads"].as_array() {
+            for t in ths {
+                if !matches!(t["mode"].as_str(), Some("pause") | Some("rsp0")) {
+                    continue;
+                }
+                let tid = t["tid"].as_i64().unwrap_or(0);
+                for _ in 0..4000 {
+                    let sc = std::fs::read_to_string(format!("/proc/{pid}/task/{tid}/syscall")).unwrap_or_default();
+                    if sc.split_whitespace().next() == Some("34") || sc.is_empty() {
+                        break;
+                    }
+                    std::thread::sleep(std::time::Duration::from_micros(500));
+                }
+            }
+        }
         let has_shared = cfg.get("shared_path").is_some();
         Ok(TargetProc { child, stdin, stdout, report, pid, cfg_path, shared_path: has_shared.then_some(shared_path) })
     }
